@@ -243,16 +243,19 @@ class Program:
 
     def new_helpers_of(self, f):
         """helpers new to the tree that f (or one of its closures / such helpers) calls or mentions, transitively"""
-        fam, out, i = [f], [], 0
-        while i < len(fam):
-            fam.extend(self.closures_of.get(fam[i].id, []))
-            i += 1
-        seen = {x.id for x in fam}
-        for g in self.fns.values():
-            if g.body and g.kind in ("fn", "assoc_fn") and self.is_new(g) and g.id not in seen:
-                if any(self.fns[o].id in seen or self.fns[o].root_fn().id in {x.root_fn().id for x in fam} for o in self.owners(g) if o in self.fns) and \
-                        (self.uses_of(g) & {x.root_fn().id for x in fam} or any(self.uses_of(g) & {h.id for h in out})):
+        roots = {f.root_fn().id}
+        out = []
+        news = [g for g in self.fns.values() if g.body and g.kind in ("fn", "assoc_fn") and self.is_new(g)]
+        changed = True
+        while changed:
+            changed = False
+            for g in news:
+                if g.id in roots:
+                    continue
+                if self.uses_of(g) & roots:
+                    roots.add(g.id)
                     out.append(g)
+                    changed = True
         return out
 
     # ---- lookups -------------------------------------------------------------------
